@@ -272,7 +272,7 @@ pub fn run_lock(line: &str) -> String {
                             wrote = false;
                             break;
                         }
-                        let deadline = Instant::now() + Duration::from_millis(if i >= 2 { 2000 } else { 50 });
+                        let deadline = Instant::now() + Duration::from_millis(if i >= 2 { 8000 } else { 50 });
                         while !gated.rdb.lock().unwrap().1 && Instant::now() < deadline {
                             std::thread::sleep(Duration::from_micros(200));
                         }
